@@ -55,7 +55,7 @@ CLAIMS.update({
          "Correspondence: 11 repr choices x discriminant layouts (negative, gapped, descending, expression-valued, named const, MIN/MAX) x disabled placement x kinds x type parameter; EVERY value of 8/16-bit reprs, discriminants +-1 / 0 / MIN / MAX / random for wider ones; `v as R` cross-checks the reference rule; a const item checks const-ness; the integer type written next to C / align hints and in separate #[repr] attributes, in every order.",
          "DESIGN.md §6 C06", "from_repr_inner cannot run in-process (uses proc_macro): mode B only. Discriminants are mathematical integers; in-range and Nodup are what rustc enforces (E0370 / E0081)."),
  'C09': ("Lean 4 proof: names/order/explicit values/repr copied => equal rustc discriminants; From maps each variant to its namesake; correspondence with compiled derives",
-         "lean/StrumProofs/C09.lean: disc_variants (incl. all repr hints of all attributes), disc_repr_attr, disc_values, disc_from, into_discriminant_iff, disc_name, disc_value_of_variant; F9 witness pinned_disc_repr_wrong. Correspondence: kinds x generics/lifetimes/where x repr x discriminant layouts x name()/vis()/derive()/doc/variant pass-through; "
+         "lean/StrumProofs/DiscHeader.lean: collectDisc_ok_iff (the strum_discriminants loop succeeds iff name and vis are each written at most once and then equals the declarative reading: all derive paths / doc lines / pass-through attributes in source order, wherever they stand), header_order (docs, then the derive attribute, then repr, then every pass-through attribute), header_name_vis, variantAttrs_spec / variantAttrs_error_iff (whitelisted attributes verbatim, strum_discriminants(x) as x, the rest dropped, in order); lean/StrumProofs/C09.lean: disc_variants (incl. all repr hints of all attributes), disc_repr_attr, disc_values, disc_from, into_discriminant_iff, disc_name, disc_value_of_variant; F9 witness pinned_disc_repr_wrong. Correspondence: mode A `discheader`: 400 (thorough: 6000) random enums with random strum_discriminants item lists / groupings / repr attributes / variant attributes, the macro's generated enum header parsed back and compared token for token with collectDisc + discHeader + variantAttrsOut; mode B: kinds x generics/lifetimes/where x repr x discriminant layouts x name()/vis()/derive()/doc/variant pass-through, items in four orders; "
          "From<E>, From<&E>, discriminant(), `as R` of both enums, size_of, compile-time uses of each requested derive, Display of a passed-through strum(serialize).",
          "DESIGN.md §6 C09", "Partial: that an arbitrary pass-through attribute takes effect is observed only for the attribute kinds the corpus uses (derive of std traits and of strum derives, doc, strum(serialize) on variants)."),
 })
